@@ -216,7 +216,7 @@ func validVictimForMinAvailable(victimInfo *api.VictimInfo) bool {
 
 	numCurrentlyRunningSubGroup := map[string]int32{}
 	for subGroupName := range numVictimTasksPerSubGroup {
-		numCurrentlyRunningSubGroup[subGroupName] = int32(victimInfo.Job.GetSubGroups()[subGroupName].GetNumActiveUsedTasks())
+		numCurrentlyRunningSubGroup[subGroupName] = int32(victimInfo.Job.GetSubGroups()[subGroupName].GetNumActiveAllocatedTasks())
 	}
 
 	for subGroupName, numVictims := range numVictimTasksPerSubGroup {
